@@ -46,6 +46,20 @@ def utf8Encode (c : Nat) : Option Bytes :=
     some [UInt8.ofNat (0xE0 + c / 4096), UInt8.ofNat (0x80 + c / 64 % 64), UInt8.ofNat (0x80 + c % 64)]
   else none
 
+/-- the one-character escapes `\" \\ \/ \b \f \n \r \t` -/
+def unescape1 (e : UInt8) : Option UInt8 :=
+  if e = 34 then some 34 else if e = 92 then some 92 else if e = 47 then some 47
+  else if e = 98 then some 8 else if e = 102 then some 12 else if e = 110 then some 10
+  else if e = 114 then some 13 else if e = 116 then some 9 else none
+
+/-- four hex digits → code unit -/
+def hex4 : Bytes → Option (Nat × Bytes)
+  | h1 :: h2 :: h3 :: h4 :: r =>
+    match hexVal h1, hexVal h2, hexVal h3, hexVal h4 with
+    | some a, some b, some c, some d => some (((a * 16 + b) * 16 + c) * 16 + d, r)
+    | _, _, _, _ => none
+  | _ => none
+
 /-- the characters of a JSON string after the opening quote, up to and including the closing quote;
     fuel = input length -/
 def readStrBody : Nat → Bytes → Option (Bytes × Bytes)
@@ -55,26 +69,19 @@ def readStrBody : Nat → Bytes → Option (Bytes × Bytes)
     if b = 34 then some ([], r)
     else if b = 92 then
       match r with
-      | e :: r' =>
-        let simple (c : UInt8) : Option (Bytes × Bytes) :=
-          match readStrBody fuel r' with
-          | some (s, rest) => some (c :: s, rest)
-          | none => none
-        if e = 34 then simple 34 else if e = 92 then simple 92 else if e = 47 then simple 47
-        else if e = 98 then simple 8 else if e = 102 then simple 12 else if e = 110 then simple 10
-        else if e = 114 then simple 13 else if e = 116 then simple 9
-        else if e = 117 then
-          match r' with
-          | h1 :: h2 :: h3 :: h4 :: r'' =>
-            match hexVal h1, hexVal h2, hexVal h3, hexVal h4 with
-            | some a, some b', some c, some d =>
-              match utf8Encode (((a * 16 + b') * 16 + c) * 16 + d), readStrBody fuel r'' with
-              | some u, some (s, rest) => some (u ++ s, rest)
-              | _, _ => none
-            | _, _, _, _ => none
-          | _ => none
-        else none
       | [] => none
+      | e :: r' =>
+        if e = 117 then
+          match hex4 r' with
+          | none => none
+          | some (cp, r'') =>
+            match utf8Encode cp, readStrBody fuel r'' with
+            | some u, some (s, rest) => some (u ++ s, rest)
+            | _, _ => none
+        else
+          match unescape1 e, readStrBody fuel r' with
+          | some c, some (s, rest) => some (c :: s, rest)
+          | _, _ => none
     else if b.toNat < 0x20 then none
     else match readStrBody fuel r with
       | some (s, rest) => some (b :: s, rest)
@@ -153,6 +160,21 @@ def readProperties (s : Bytes) : Option (Option (List Property)) :=
         | some (ps, rest) => if skipWs rest = [] then some (some ps) else none
         | none => none
     | _ => none
+
+/-! ## which byte strings JSON text can carry -/
+
+/-- Go's notion of valid UTF-8 on the whole string (every non-ASCII position decodes) -/
+def validUtf8 : Nat → Bytes → Bool
+  | 0, s => s.isEmpty
+  | _ + 1, [] => true
+  | fuel + 1, b :: r =>
+    if b.toNat < 0x80 then validUtf8 fuel r
+    else match decodeRune (b :: r) with
+      | none => false
+      | some (_, size) => validUtf8 fuel (r.drop (size - 1))
+
+def propOk (p : Property) : Bool :=
+  validUtf8 p.name.length p.name && validUtf8 p.value.length p.value && validUtf8 p.signature.length p.signature
 
 /-! ## the handshake listener -/
 
